@@ -104,3 +104,86 @@ Example c04_x_example :
       [([VId 0; VInt 1], VInt 0, false); ([VId 0; VInt 3], VInt 0, false); ([VId 0; VInt 9], VInt 0, false)];
       [([], VId 0, false)]]).
 Proof. exact RulesProofs.rex_mixed. Qed.
+
+(* ================================================================== *)
+(** * The serialised e-graph and the read API describe the same rows
+
+    [serialize_default outs (uf s) (tabs s)] is the hand model of [EGraph::serialize] with
+    [SerializeConfig::default()] (Egg/Serialize.v; compared with the real function on the real dump
+    after every command by harness h_serialize, whole node map in IndexMap order). [outs] gives the
+    output sort of every table (eq-sort / i64 / Unit) - the statement holds for every choice. *)
+Require Import Verif.Egg.Serialize Verif.Egg.SerializeProofs.
+
+(** [ser_agrees], spelled out (this pins it) *)
+Theorem c04_ser_agrees_unfold : forall outs s, ser_agrees outs s <->
+  (let g := serialize_default outs (uf s) (tabs s) in
+   (* every function node of the serialised graph is a live row of the dump *)
+   (forall f off nd, find_node g (NFun f off) = Some nd ->
+      exists r, nth_error (get_tab (tabs s) f) off = Some r) /\
+   (* every row is a node: its op, the e-class of its (canonicalised) output, its subsumed flag;
+      every child is a node that exists in the graph, in the canonical class of the argument *)
+   (forall f off r, nth_error (get_tab (tabs s) f) off = Some r ->
+      exists ch, find_node g (NFun f off)
+                 = Some (mkNode (OpFun f) (out_class (uf s) (nth f outs OEq) (rret r)) ch (rsub r)) /\
+                 Forall2 (fun x v => exists cn, find_node g x = Some cn /\
+                                                n_class cn = class_of (uf s) v) ch (rargs r)) /\
+   (* canonicalisation is the identity on every stored id: class ids are the stored ids *)
+   (forall f r i, In r (get_tab (tabs s) f) -> (In (VId i) (rargs r) \/ rret r = VId i) ->
+      class_of (uf s) (VId i) = CEq i) /\
+   (* two nodes are in one e-class iff the read API (plain key lookup, as [eval]) returns the
+      same value for their keys *)
+   (forall f1 r1 f2 r2 i1 i2, In r1 (get_tab (tabs s) f1) -> In r2 (get_tab (tabs s) f2) ->
+      rret r1 = VId i1 -> rret r2 = VId i2 ->
+      (class_of (uf s) (rret r1) = class_of (uf s) (rret r2) <->
+       option_map rret (tab_lookup (get_tab (tabs s) f1) (rargs r1))
+       = option_map rret (tab_lookup (get_tab (tabs s) f2) (rargs r2))))).
+Proof. intros outs s. reflexivity. Qed.
+Print Assumptions c04_ser_agrees_unfold.
+
+(** at EVERY state the rule interpreter visits (after every command, and at the error point of a
+    failing one), for every signature and program *)
+Theorem c04_serialize_agrees : forall n sg ks s outs, visited sg n ks s -> ser_agrees outs s.
+Proof. exact SerializeProofs.serialize_agrees_visited. Qed.
+Print Assumptions c04_serialize_agrees.
+
+(** the first two clauses need no invariant at all: they hold for the serialisation of ANY dump
+    (so also for a dump of an engine state that is not canonical) *)
+Theorem c04_serialize_nodes_are_rows : forall p outs ts f off nd,
+  find_node (serialize_default outs p ts) (NFun f off) = Some nd ->
+  exists r, nth_error (get_tab ts f) off = Some r.
+Proof. exact SerializeProofs.ser_nodes_are_rows. Qed.
+Print Assumptions c04_serialize_nodes_are_rows.
+
+Theorem c04_serialize_rows_are_nodes : forall p outs ts f off r,
+  nth_error (get_tab ts f) off = Some r ->
+  exists ch, find_node (serialize_default outs p ts) (NFun f off)
+             = Some (mkNode (OpFun f) (out_class p (nth f outs OEq) (rret r)) ch (rsub r)) /\
+             Forall2 (fun x v => exists cn, find_node (serialize_default outs p ts) x = Some cn /\
+                                            n_class cn = class_of p v) ch (rargs r).
+Proof. exact SerializeProofs.ser_rows_are_nodes. Qed.
+Print Assumptions c04_serialize_rows_are_nodes.
+
+(** primitive and dummy nodes carry the class their id names *)
+Theorem c04_serialize_leaf_class : forall p outs ts n nd,
+  find_node (serialize_default outs p ts) n = Some nd ->
+  match n with NPrim c | NDummy c => n_class nd = c | NFun _ _ => True end.
+Proof. exact SerializeProofs.ser_leaf_class. Qed.
+Print Assumptions c04_serialize_leaf_class.
+
+(** non-vacuity: a dump with a shared class, a subsumed row, a class without nodes (dummy), an
+    i64 function and a Unit function; and the limited configuration *)
+Example c04_serialize_example :
+  map fst (o_nodes SEx.g)
+  = [NFun 0 0; NFun 0 1; NPrim (CInt 5); NFun 1 0; NDummy (CEq 3); NFun 1 1; NPrim (CInt 7);
+     NFun 2 0; NPrim CUnit; NFun 3 0] /\
+  find_node SEx.g (NFun 1 0) = Some (mkNode (OpFun 1) (CEq 1) [NFun 0 1; NPrim (CInt 5)] true) /\
+  find_node SEx.g (NFun 1 1) = Some (mkNode (OpFun 1) (CEq 1) [NDummy (CEq 3); NPrim (CInt 5)] false) /\
+  find_node SEx.g (NFun 2 0) = Some (mkNode (OpFun 2) (CInt 7) [NFun 1 1] false) /\
+  find_node SEx.g (NFun 3 0) = Some (mkNode (OpFun 3) CUnit [NFun 1 0] false) /\
+  o_cdata SEx.g = [CEq 0; CEq 1; CInt 5; CEq 3; CInt 7; CUnit].
+Proof. exact SerializeProofs.SEx.ex_nodes. Qed.
+
+Example c04_serialize_limited_example :
+  let g' := serialize (Some 2) (Some 1) SEx.outs [0; 1; 1; 3] SEx.ts in
+  map fst (o_nodes g') = [NFun 0 0; NPrim (CInt 5); NFun 1 0] /\ o_trunc g' = [0; 1] /\ o_disc g' = [2; 3].
+Proof. exact SerializeProofs.SEx.ex_limited. Qed.
